@@ -86,6 +86,8 @@ func c06Paths() []string {
 			"$[?(@.a == 'x' || !@.b)]", "$.c[?(@.a == 1)].b", "$..[?(@.a)]", "$..[?(@.a == 1)]", "$.list[?(@.v == 1)].id", "$.list[?(@.v == $.x)]", "$.list[?(@.v == '1')]", "$.list[?(@.v)]", "$.list[?(!@.v)].id",
 			"$.a.f1()", "$.*.f1()", "$.a.g1()", "$.*.g2()", "$[?(@.a.f2() == 2)]", "$[?(@.*.g1() > 1)]", "$.c[*].a.f2().f1()", "$..a.g1()", "$.b.c[?(@ > 1)]", "$.b.c[?(@ == 2 || @ == 3)]",
 			"$[*,0]", "$[1,*]", "$[*,*]", "$[*,0].a", "$[0,*,-1].b", "$[?(@.a > 100)].b", "$[-3:].a", "$[::-20].a", "$[?(@.b == $[3].b)].a", "$.list[?(@.v == $.x)].id", "$.list[?(@.v != $.x)].id", "$..[?(@.v == $.x)]", "$[?($.a == 3)]", "$[?($.d == 'y')]",
+			// the bare current node as an existence test under a logical operator, on arrays
+			"$[?(@ && @.a)]", "$[?(@ || @.b)]", "$[?(!@)]", "$[?(@ && @ != null)].a", "$.c[?(@ && @.b)]", "$.list[?(@ || @.v == 1)].id", "$[4][?(!@ || @ > 1)]",
 			// "fre": a shared parsed function whose user function calls that very parsed function again
 			"$[*].fre()", "$..a.fre()", "$.c[?(@.a.fre() == 1)]", "$.b.c[*].fre().f1()",
 			// functions that themselves call the library; literal on the left of an ordering comparison with a root path
